@@ -38,7 +38,8 @@ def cases(rng, tier):
     yield from split_cases(rng, tier)
     n = 300 if tier == "quick" else 5000
     for i in range(n):
-        yield rvgen.sim_case(rng, "five", hazard=HAZARD, opts={"wide": i % 4 == 0}, trace=45, run=600, suite="sim-five")
+        c_ = rvgen.sim_case(rng, "five", hazard=HAZARD, opts={"wide": i % 4 == 0}, trace=45, run=600, suite="sim-five")
+        yield rvgen.as_text_case(c_) if i % 4 == 3 else c_        # every fourth program goes through the loader
     for i in range(n // 3):
         yield rvgen.chain_case(rng, "five", hazard=HAZARD, trace=30, run=300, dspec=rvgen.cache_spec(rng, "d", 0.3), suite="sim-five")
     for prog, regs in rvgen.fault_schedule_programs():      # faults in every pipeline situation: same fault, same state in both modes
@@ -102,7 +103,7 @@ def run_mode(c, mode, hazard, limit=4000, nocache=False, noicache=False):
     """Run the case's program on a fresh real simulation in the given mode until done / fault / limit.
     Returns dict(final snapshot fields, retire order, fault, cycles)."""
     im = implmod.Impl()
-    hdr = [l for l in c.lines if l.split()[0] in ("sim.prog", "sim.reg", "sim.poke")]
+    hdr = [l for l in c.lines if l.split()[0] in ("sim.prog", "sim.load", "sim.reg", "sim.poke")]
     new = next(l for l in c.lines if l.startswith("sim.new")).split()
     im.run(f"sim.new {mode} {1 if hazard else 0} {'-' if nocache else new[3]} {'-' if nocache or noicache else new[4]}")
     for l in hdr:
